@@ -64,7 +64,8 @@ def main():
         if d.startswith(os.path.join(VERIF, "seeded")):
             dst = d
         else:
-            wave = "w2-" if "/mutout2-" in d else ("w3-" if "/mutout3-" in d else "")
+            mw = re.search(r"/mutout(\d+)-", d)
+            wave = "w%s-" % mw.group(1) if mw else ""
             dst = os.path.join(VERIF, "seeded", "%s-%s%s-%s" % (prop, wave, k, slug))
             os.makedirs(dst, exist_ok=True)
             for f in os.listdir(d):
